@@ -52,14 +52,17 @@ BASE_FLAGS = ["-std=c++17", "-I", INCLUDE, "-I", os.path.join(VERIF, "engine"),
               "-DJSONCONS_VERIF", "-w", "-pthread"]
 
 
-def build(name, sources, flags=(), cxx=None, link_flags=(), per_tu=True):
+def build(name, sources, flags=(), cxx=None, link_flags=(), per_tu=True, source_flags=None, no_common_flags_for=()):
     """Compile `sources` (paths relative to /verif) into build/<key>/<name>.
+    `source_flags` maps a source to extra flags for that translation unit only; sources listed in
+    `no_common_flags_for` are compiled without `flags` (e.g. a runtime that must not be instrumented).
     Returns the absolute path of the binary.  Raises on compile failure."""
     cxx = cxx or CXX
     flags = list(flags)
+    source_flags = source_flags or {}
     h = hashlib.sha256()
     h.update(subprocess.run([cxx, "--version"], capture_output=True).stdout)
-    h.update(repr((cxx, BASE_FLAGS, flags, list(link_flags), name)).encode())
+    h.update(repr((cxx, BASE_FLAGS, flags, list(link_flags), name, sorted(source_flags.items()), sorted(no_common_flags_for))).encode())
     for s in sources:
         with open(os.path.join(VERIF, s), "rb") as fh:
             h.update(s.encode()); h.update(fh.read())
@@ -78,7 +81,8 @@ def build(name, sources, flags=(), cxx=None, link_flags=(), per_tu=True):
     for s in sources:
         o = os.path.join(tmpdir, os.path.basename(s) + ".o")
         objs.append(o)
-        cmd = [cxx] + BASE_FLAGS + flags + ["-c", os.path.join(VERIF, s), "-o", o]
+        tu_flags = ([] if s in no_common_flags_for else flags) + list(source_flags.get(s, []))
+        cmd = [cxx] + BASE_FLAGS + tu_flags + ["-c", os.path.join(VERIF, s), "-o", o]
         procs.append((cmd, subprocess.Popen(cmd, stdout=subprocess.PIPE, stderr=subprocess.STDOUT)))
     for cmd, p in procs:
         outp = p.communicate()[0]
@@ -86,7 +90,8 @@ def build(name, sources, flags=(), cxx=None, link_flags=(), per_tu=True):
             sys.stderr.write("BUILD FAILED: %s\n%s\n" % (" ".join(cmd), outp.decode(errors="replace")[-6000:]))
             shutil.rmtree(tmpdir, ignore_errors=True)
             raise SystemExit(2)
-    cmd = [cxx] + BASE_FLAGS + flags + objs + list(link_flags) + ["-o", os.path.join(tmpdir, name)]
+    link_common = [] if no_common_flags_for else flags
+    cmd = [cxx] + BASE_FLAGS + link_common + objs + list(link_flags) + ["-o", os.path.join(tmpdir, name)]
     r = subprocess.run(cmd, stdout=subprocess.PIPE, stderr=subprocess.STDOUT)
     if r.returncode != 0:
         sys.stderr.write("LINK FAILED: %s\n%s\n" % (" ".join(cmd), r.stdout.decode(errors="replace")[-6000:]))
